@@ -19,6 +19,8 @@ def run(ctx):
         dscommon.run_family(ctx, "C03K1", fmt="text", fresh=False, nontrivial_fn=lambda o: bool(o["opts"]["given"]))
         # text files that give the initialisation time as date + hour columns (runs at 06 UTC on several consecutive rows)
         dscommon.run_family(ctx, "C03K1", fmt="text", variant={"time_format": "datehour"}, nontrivial_fn=lambda o: bool(o["opts"]["given"]), cli_lists=40)
+        # lead times that are not whole hours (every lead time divided by 8: 12 h becomes 1.5 h)
+        dscommon.run_family(ctx, "C03K1", fmt="text", variant={"lead_scale": 0.125}, nontrivial_fn=lambda o: bool(o["opts"]["given"]))
         # a NetCDF file whose integer time variable has an unwritten (missing) last entry: a missing coordinate is no initialisation time
         dscommon.run_family(ctx, "C03K1", fmt="netcdf", variant={"nc_pad_time": True, "nc_missing": "fill"}, nontrivial_fn=lambda o: bool(o["opts"]["given"]))
     else:
@@ -27,5 +29,6 @@ def run(ctx):
         dscommon.run_family(ctx, "C03ClimK2", fmt="text", nontrivial_fn=lambda o: bool(o["opts"]["given"]))
         dscommon.run_family(ctx, "C03K2", fmt="text", fresh=False, nontrivial_fn=lambda o: bool(o["opts"]["given"]))
         dscommon.run_family(ctx, "C03K2", fmt="text", variant={"time_format": "datehour"}, nontrivial_fn=lambda o: bool(o["opts"]["given"]), cli_lists=2000)
+        dscommon.run_family(ctx, "C03K2", fmt="netcdf", variant={"lead_scale": 0.125}, nontrivial_fn=lambda o: bool(o["opts"]["given"]))
         ctx.exhaustive = True
     par.clean_workdirs()
